@@ -21,7 +21,7 @@ pub fn clear_spill_of_typed_over_cell(ws: &mut Worksheet, sheet: u32, row: i32, 
             ==> #[trigger] final(ws).cleared().contains((r, c)),
 {
 //@fragment#2 base/src/model.rs Model::prepare_cell_for_user_input `for r in ` .. `let _ = ws.cell_clear_contents(r, c);`
-//@rewrite `for c in anchor_column..anchor_column + width {` => `let mut __c = anchor_column; while __c < anchor_column + width { let c = __c; __c += 1;`
+//@forwhile 2
 //@loop 1
                     invariant
                         forall|r2: int, c2: int| anchor_row <= r2 < r && anchor_column <= c2 < anchor_column + width && !(r2 == anchor_row && c2 == anchor_column)
